@@ -4,6 +4,7 @@ CONSTANTS
   WRun = {1}
   WTerm = {2}
   QCap = 4
+  MaxIters = 2
   MaxStart = 1
   ParentCancels = TRUE
   Presents = {{"start","run","stop"}}
